@@ -320,17 +320,39 @@ def toFixed (L : Lib) (x : FV) (a : Arg) : Res :=
   if lt (ofInt 20) precision ∨ lt precision zero then .rangeError
   else .str (toFixedStr L x precision)
 
-/-- builtinNumberToExponential (builtin_number.go:70) -/
+/-- `digits[e-1]++` on the output of strconv's %e: the last mantissa digit (the byte before 'e') plus one -/
+def bumpBeforeE : Str → Str
+  | [] => []
+  | [c] => [c]
+  | c :: d :: r => if d = 101 then (c + 1) :: d :: r else c :: bumpBeforeE (d :: r)
+
+/-- the exact-arithmetic test of builtinNumberToExponential: |x| minus the printed decimal (|x| rounded
+    half-even to n significant digits) is exactly half a unit of the last digit, i.e. x·10^k lies exactly
+    half way and strconv went down (to the even neighbour) -/
+def tieRoundedDown (m : Nat) (e : Int) (n : Nat) : Bool :=
+  let (num, den) := ratOf m e
+  let (a, b) := scale10 num den ((n : Int) - decExp num den)
+  2 * (a % b) = b ∧ (a / b) % 2 = 0
+
+/-- the tail of builtinNumberToExponential: strconv's %e, exact ties moved up -/
+def expFormat (L : Lib) (x : FV) (prec : Int) : Str :=
+  let result := formatFloat L x .e prec
+  match x with
+  | .fin _ m e => if prec ≥ 0 ∧ m ≠ 0 ∧ tieRoundedDown m e (prec.toNat + 1) then bumpBeforeE result else result
+  | _ => result
+
+/-- builtinNumberToExponential (builtin_number.go:89).  The receiver is a Number here (the TypeError for
+    other this values is `numberMethodThis`). -/
 def toExponential (L : Lib) (x : FV) (a : Arg) : Res :=
   if isNaN x then .str sNaN
   else if isInf x then .str (floatToString L x)
   else
     match a with
-    | .undef => .str (formatFloat L (dropZeroSign x) .e (-1))
+    | .undef => .str (expFormat L (dropZeroSign x) (-1))
     | .num v =>
       let precision := toIntegerFloat v
       if lt precision zero ∨ lt (ofInt 20) precision then .rangeError
-      else .str (formatFloat L (dropZeroSign x) .e (goInt precision))
+      else .str (expFormat L (dropZeroSign x) (goInt precision))
 
 /-- builtinNumberToPrecision (builtin_number.go:91) -/
 def toPrecision (L : Lib) (x : FV) (a : Arg) : Res :=
@@ -570,17 +592,60 @@ def parseNumberLiteral (lit : Str) : Option FV :=
     | none => viaFloat
   | .syntax => viaFloat
 
-/-- a source text that is exactly one numeric literal token: its value; `none` otherwise
-    (ILLEGAL token, leftover text, parse error) -/
-def literalValue (s : Str) : Option FV :=
+/-- the literal token of a source text that is exactly one numeric literal; `none` otherwise
+    (ILLEGAL token, leftover text) -/
+def literalToken (s : Str) : Option Str :=
   let tok : Option (Str × Str) := match s with
     | 46 :: d :: _ =>
       if lexDigitValue d < 10 then let (ds, r) := scanMantissa 10 (s.drop 1); scanExponent (46 :: ds) r else none
     | d :: _ => if isDecimalDigit d then scanNumber s else none
     | [] => none
   match tok with
-  | some (lit, []) => parseNumberLiteral lit
+  | some (lit, []) => some lit
   | _ => none
 
+/-- a source text that is exactly one numeric literal token: its value; `none` otherwise
+    (ILLEGAL token, leftover text, parse error) -/
+def literalValue (s : Str) : Option FV := (literalToken s).bind parseNumberLiteral
+
+/-- parseNumberLiteral keeps an int64 only for |i| ≤ 2^53 (lexer.go:669); everything else is a float64 -/
+def literalIsInt (lit : Str) : Bool :=
+  match GoStd.parseInt lit 0 with
+  | .ok i => decide (i.natAbs ≤ 2 ^ 53)
+  | _ => false
+
+/-- Value.string() of a number Value: int64-kinded values print their digits (strconv.FormatInt),
+    float64-kinded ones go through floatToString (value_string.go:60-100) -/
+def numValToString (L : Lib) (isInt : Bool) (v : FV) : Str :=
+  if isInt then formatInt (truncInt v) 10 else numToString L v
+
+/-- String(<numeric literal>) -/
+def literalString (L : Lib) (s : Str) : Option Str :=
+  (literalToken s).bind fun lit => (parseNumberLiteral lit).map (numValToString L (literalIsInt lit))
+
+/-- builtinGlobalParseInt returns an int64 Value for results up to 2^53 in magnitude (−0, NaN and
+    everything beyond are float64 Values): decidable from the value -/
+def parseIntIsInt (v : FV) : Bool :=
+  match v with
+  | .fin s m e => !(s && m == 0) && isIntegral m e && decide (truncAbs m e ≤ 2 ^ 53)
+  | _ => false
+
+/-- String(parseInt(s, radix)) -/
+def parseIntString (L : Lib) (s : Str) (a : Arg) : Str :=
+  let v := parseInt s a
+  numValToString L (parseIntIsInt v) v
+
+/-! ### the receiver check of the Number.prototype methods -/
+
+/-- kinds of `this` values -/
+inductive ThisKind | undef | null | bool | str | num | obj | arr | fn | date | numObj | strObj | boolObj | protoChild
+deriving DecidableEq, Repr
+
+/-- `call.thisClassObject("Number")` (used by toString, toLocaleString, valueOf and, since e68311c, by
+    toFixed, toExponential, toPrecision): anything whose class is not Number throws TypeError -/
+def numberMethodThis (k : ThisKind) : Bool :=   -- true = accepted
+  match k with
+  | .num | .numObj => true
+  | _ => false
 
 end OttoVerif.C06
